@@ -43,11 +43,48 @@ fn run(names: &str, op: &str, target: &str) -> Option<String> {
     None
 }
 
+/// every string constructor of AsciiString: Ok iff the input is ASCII, and then the same text
+fn check_ctors() -> (u64, Vec<String>) {
+    use std::borrow::Cow;
+    let mut n = 0u64; let mut found = Vec::new();
+    let mut chk = |desc: String, input_ascii: bool, text: &str, got: Result<AsciiString, String>, n: &mut u64| {
+        *n += 1;
+        let ok = match &got { Ok(a) => input_ascii && a.as_str() == text && a.as_str().is_ascii(), Err(_) => !input_ascii };
+        if !ok && found.len() < 5 { found.push(format!("ctor {desc} expected={} actual={:?}", if input_ascii { "Ok(same text)" } else { "Err" }, got.map(|a| a.as_str().to_string()))); }
+    };
+    for cp in (0u32..=0x10FFFF).filter_map(char::from_u32) {
+        let c = cp;
+        if (c as u32) > 0x400 && (c as u32) % 97 != 0 { continue; }
+        chk(format!("kind=char cp={}", c as u32), c.is_ascii(), &c.to_string(), AsciiString::try_from(c), &mut n);
+    }
+    for s in ["", "a", "abc xyz", "\u{7f}", "\u{80}", "caf\u{e9}", "\u{ff}", "\u{100}", "a\u{20ac}b", "\u{1F600}"] {
+        let asc = s.is_ascii();
+        chk(format!("kind=String text={s:?}"), asc, s, AsciiString::try_from(s.to_string()), &mut n);
+        chk(format!("kind=&String text={s:?}"), asc, s, AsciiString::try_from(&s.to_string()), &mut n);
+        chk(format!("kind=&str text={s:?}"), asc, s, AsciiString::try_from(s), &mut n);
+        let mut owned = s.to_string();
+        chk(format!("kind=&mut-str text={s:?}"), asc, s, AsciiString::try_from(owned.as_mut_str()), &mut n);
+        chk(format!("kind=Box<str> text={s:?}"), asc, s, AsciiString::try_from(s.to_string().into_boxed_str()), &mut n);
+        chk(format!("kind=Cow text={s:?}"), asc, s, AsciiString::try_from(Cow::Borrowed(s)), &mut n);
+    }
+    for v in [0i64, 1, -1, 9, 10, 255, -128, 65535, i64::MAX, i64::MIN] {
+        n += 1;
+        let a = AsciiString::from(v);
+        if a.as_str() != v.to_string() || !a.as_str().is_ascii() { if found.len() < 5 { found.push(format!("ctor kind=i64 value={v} expected={v} actual={}", a.as_str())); } }
+    }
+    (n, found)
+}
 fn main() {
     let args: Vec<String> = std::env::args().collect();
     if args.len() >= 3 && args[1] == "replay" {
         let w = args[2..].join(" ");
         let get = |k: &str| w.split(&format!("{k}=")).nth(1).map(|s| s.split(' ').next().unwrap_or("").to_string()).unwrap_or_default();
+        if w.starts_with("ctor") {
+            let key = w.split(" expected=").next().unwrap_or("").to_string();
+            let (_, f) = check_ctors();
+            if f.iter().any(|m| m.starts_with(&key)) { println!("WITNESS {w}"); std::process::exit(1) }
+            println!("OK witness no longer fails"); std::process::exit(0)
+        }
         match run(&get("names"), &get("op"), &get("target")) {
             Some(m) => { println!("WITNESS {m}"); std::process::exit(1) }
             None => { println!("OK witness no longer fails"); std::process::exit(0) }
@@ -70,6 +107,9 @@ fn main() {
             }
         }
     }
+    let (cn, cf) = check_ctors();
+    n += cn;
+    found.extend(cf);
     println!("EVALUATED {n}");
     for f in &found { println!("WITNESS {f}"); }
     std::process::exit(if found.is_empty() { 0 } else { 1 });
